@@ -1,14 +1,54 @@
-(* C11 — refutations (finding F6, DESIGN.md §5): for the code as it is, "Wait returns
-   only after the callbacks for all tasks added before it have returned" is false.
-   Witness schedules are evaluated with vm_compute; the first one is replayed on the
-   real BulkExecutor / ChunkExecutor / PeriodicalExecutor by the correspondence run
-   (corpus of tools/props/c11.py). *)
+(* C11 — the protocol as it was before the fix of finding F6 (DESIGN.md §5; go-zero commit
+   "fix: periodical executor Wait returned before a batch handed over by a concurrent Add
+   had run"), kept to document the defect.  It differs from Model.v in three actions:
+   the flusher decrements inflight when it RECEIVES the batch (before enterExecution), goes
+   from enterExecution straight to the confirmation, and Wait goes from its Flush straight to
+   the barrier (no wait for inflight = 0).  For this protocol "Wait returns only after the
+   callbacks for all tasks added before it have returned" is refuted by concrete schedules
+   (vm_compute); the first one was replayed on the real BulkExecutor / ChunkExecutor /
+   PeriodicalExecutor before the fix and is now a regression case of the correspondence run
+   (corpus of tools/props/c11.py: reverting the fix makes ./check C11 fail on it). *)
 From Coq Require Import List ZArith Bool.
 From GZ Require Import C11.Model C11.ProofsA C11.Proofs.
 Import ListNotations.
 Open Scope Z_scope.
 
-Definition cfg2 (p : bool) : config := mkCfg 2 1000 [] p.
+Definition pinned_cstep (cfg : config) (s : state) (c : nat) : option state :=
+  match nth_error (cl s) c with
+  | Some (CFl (FDone ok) true) =>
+    (* waitGroup.Done of Wait's Flush, then directly to the barrier *)
+    Some (set_cl (set_wg s (wg s - 1)) (upd (cl s) c CWGuard))
+  | _ => cstep cfg s c
+  end.
+
+Definition pinned_bstep (cfg : config) (s : state) (b : nat) (alt : bool) : option state :=
+  match nth_error (fl s) b with
+  | Some (BSelect commanded last) =>
+    if alt then bstep cfg s b alt
+    else match cmd s with
+         | Some h => Some (set_fl (set_inflight (set_cmd s None) (inflight s - 1))
+                                  (upd (fl s) b (BGot h last)))
+         | None => None
+         end
+  | Some (BGot h last) =>
+    if barrier s then None
+    else Some (set_fl (set_wg s (wg s + 1)) (upd (fl s) b (BConfirm h)))
+  | _ => bstep cfg s b alt
+  end.
+
+Definition pinned_step (cfg : config) (s : state) (e : ev) : option state :=
+  match e with
+  | EvC c => pinned_cstep cfg s c
+  | EvB b alt => pinned_bstep cfg s b alt
+  | _ => step cfg s e
+  end.
+
+Definition pinned_exec (cfg : config) (s : state) (e : ev) : state :=
+  match pinned_step cfg s e with Some s' => s' | None => s end.
+Definition pinned_run (cfg : config) (s : state) (sched : list ev) : state :=
+  fold_left (pinned_exec cfg) sched s.
+
+Definition cfg2 : config := mkCfg 2 1000 [].
 
 (* Add 1, Add 2 (threshold: handed over, confirmed, flusher about to run the callback
    on [1;2]); Add 3 returns (container = [3]); client 1: Add 4 removes [3;4] under the
@@ -33,16 +73,15 @@ Qed.
 
 Theorem wait_covers_prior_adds_refuted :
   exists cfg n pre w mid,
-    patched cfg = false /\
-    let s0 := run cfg (init n) pre in
-    let s1 := run cfg s0 (EvCall w CWait :: mid) in
+    let s0 := pinned_run cfg (init n) pre in
+    let s1 := pinned_run cfg s0 (EvCall w CWait :: mid) in
     nth_error (cl s0) w = Some CIdle /\ no_call_of w mid /\
     nth_error (cl s1) w = Some CIdle /\
     exists a, In a (accepted s0) /\
               nth_error (cl s0) 0%nat = Some CIdle (* the Add of a had returned *) /\
               ~ In a (done_tasks s1).
 Proof.
-  exists (cfg2 false), 3%nat, f6_pre, 2%nat, f6_mid. split; [reflexivity|].
+  exists cfg2, 3%nat, f6_pre, 2%nat, f6_mid.
   cbv zeta. split; [vm_compute; reflexivity|]. split; [apply no_call_of_evc; reflexivity|].
   split; [vm_compute; reflexivity|].
   exists 3. split; [vm_compute; tauto|]. split; [vm_compute; reflexivity|].
@@ -50,29 +89,29 @@ Proof.
 Qed.
 
 Example f6_state_at_wait_start :
-  let s0 := run (cfg2 false) (init 3) f6_pre in
+  let s0 := pinned_run cfg2 (init 3) f6_pre in
   cont s0 = [] /\ cmd s0 = Some [3; 4] /\ inflight s0 = 1 /\ unentered s0 = [3; 4] /\
   fl s0 = [BExec [1; 2]].
 Proof. vm_compute. repeat split; reflexivity. Qed.
 
-(* with the candidate repair the same schedule (one more flusher action: inflight-- is
-   now separate) does not let Wait return: it waits for inflight = 0 *)
-Definition f6_pre_p : list ev :=
+(* in the fixed protocol the same schedule (one more flusher action: inflight-- is now a
+   separate action after enterExecution) does not let Wait return: it waits for inflight = 0 *)
+Definition f6_pre_fixed : list ev :=
   [EvCall 0 (CAdd 1 1); EvC 0; EvB 0 false;
    EvCall 0 (CAdd 2 1); EvC 0; EvC 0; EvB 0 false; EvB 0 false; EvB 0 false; EvC 0;
    EvCall 0 (CAdd 3 1); EvC 0;
    EvCall 1 (CAdd 4 1); EvC 1; EvC 1].
-Example f6_schedule_patched_blocks :
-  let s1 := run (cfg2 true) (init 3) (f6_pre_p ++ EvCall 2 CWait :: f6_mid) in
+Example f6_schedule_fixed_blocks :
+  let s1 := run cfg2 (init 3) (f6_pre_fixed ++ EvCall 2 CWait :: f6_mid) in
   nth_error (cl s1) 2%nat = Some CWSpin /\ inflight s1 = 1 /\ executed s1 = [[1; 2]].
 Proof. vm_compute. repeat split; reflexivity. Qed.
 
-(* Requiring the hand-over hypothesis only at the moment the Wait starts is not enough:
-   client 3 is inside a Flush callback, client 1's Wait holds the barrier; Add 2 returns;
-   client 2 starts Wait (blocked at enterExecution, nothing handed over at that moment);
-   then Add 3 removes [2;3] and hands it over; the callbacks finish, Wait 1 returns, and
-   Wait 2 flushes an empty container and returns while [2;3] is still in the flusher's
-   hand. *)
+(* Before the fix, requiring that nothing is handed over at the moment the Wait starts was
+   not enough either: client 3 is inside a Flush callback, client 1's Wait holds the barrier;
+   Add 2 returns; client 2 starts Wait (blocked at enterExecution, nothing handed over at
+   that moment); then Add 3 removes [2;3] and hands it over; the callbacks finish, Wait 1
+   returns, and Wait 2 flushes an empty container and returns while [2;3] is still in the
+   flusher's hand. *)
 Definition f6b_pre : list ev :=
   [EvCall 0 (CAdd 1 1); EvC 0; EvB 0 false;
    EvCall 3 CFlush; EvC 3; EvC 3;
@@ -85,16 +124,15 @@ Definition f6b_mid : list ev :=
 
 Theorem wait_start_hypothesis_insufficient :
   exists cfg n pre w mid,
-    patched cfg = false /\
-    let s0 := run cfg (init n) pre in
-    let s1 := run cfg s0 (EvCall w CWait :: mid) in
+    let s0 := pinned_run cfg (init n) pre in
+    let s1 := pinned_run cfg s0 (EvCall w CWait :: mid) in
     nth_error (cl s0) w = Some CIdle /\ no_call_of w mid /\
     unentered s0 = [] /\
     nth_error (cl s1) w = Some CIdle /\
     exists a, In a (accepted s0) /\ nth_error (cl s0) 0%nat = Some CIdle /\
               ~ In a (done_tasks s1).
 Proof.
-  exists (cfg2 false), 4%nat, f6b_pre, 2%nat, f6b_mid. split; [reflexivity|].
+  exists cfg2, 4%nat, f6b_pre, 2%nat, f6b_mid.
   cbv zeta. split; [vm_compute; reflexivity|]. split; [apply no_call_of_evc; reflexivity|].
   split; [vm_compute; reflexivity|]. split; [vm_compute; reflexivity|].
   exists 2. split; [vm_compute; tauto|]. split; [vm_compute; reflexivity|].
